@@ -1,5 +1,6 @@
 SPECIFICATION Spec
 CONSTANT FixF1 = TRUE
+CONSTANT FixF18 = TRUE
 CONSTANT Small = FALSE
 INVARIANT SigEncBijection
 INVARIANT DeprecatedSame
